@@ -43,6 +43,7 @@ void sim_unpoison(const void* p, size_t bytes);
 
 /** fill pattern used for blocks the library itself allocates (malloc family); calloc stays zero */
 void sim_set_lib_fill(int fill, uint64_t seed);
+void sim_get_lib_fill(int* fill, uint64_t* seed);
 /** LIFO reuse of released library blocks of equal size (ignored in the tsan flavour) */
 void sim_set_reuse(int on);
 /** library allocation accounting: ids are monotonically increasing per library allocation */
